@@ -26,6 +26,20 @@ Definition verdicts (p : str) (names : list str) :=
 """
 
 
+# the same header with the textbook specification written out instead of imported from proofs/GlobProofs.v
+COQ_HEADER_FB = COQ_HEADER.replace(" proofs.GlobProofs.", ".").replace("Definition ob ", """Definition is_nil_ (x : str) : bool := match x with [] => true | _ => false end.
+Fixpoint any_suffix (f : str -> bool) (t : str) : bool := f t || match t with [] => false | _ :: t' => any_suffix f t' end.
+Fixpoint wild_spec (st on : N) (p subj : str) : bool :=
+  match p with
+  | [] => is_nil_ subj
+  | c :: p' => if c =? st then any_suffix (wild_spec st on p') subj
+               else match subj with [] => false | d :: t => (if c =? on then true else lower1 c =? lower1 d) && wild_spec st on p' t end
+  end.
+Definition glob_spec := wild_spec 42 63.
+Definition like_spec := wild_spec 37 95.
+Definition ob """, 1)
+
+
 def gen_names(rng, n):
     names = set()
     fixed = ["a", "A", "ab", "a.txt", "A.TXT", "f1.txt", "ff1", "f+1", "a+b", "x{1}", "a|b", "[a]", "(a)", "^a$", "a-b,c", "it's", "#1~",
@@ -181,7 +195,8 @@ def run(ctx):
     # model + spec, evaluated by Coq
     nl = glist([gstr(n) for n in names], "str")
     hdr = COQ_HEADER + "Definition names : list str := %s.\n" % nl
-    res = coq_eval(hdr, ["verdicts %s names" % gstr(p) for _, p in pats], ctx.scratch, tag="c12", shard=8)
+    res = coq_eval(hdr, ["verdicts %s names" % gstr(p) for _, p in pats], ctx.scratch, tag="c12", shard=8,
+                   fallback_header=COQ_HEADER_FB + "Definition names : list str := %s.\n" % nl)
     # harness: converter strings and the real regex crate
     conv = {}
     try:
